@@ -730,6 +730,10 @@ def gen_inf_case(rng, plain=False, extra=None):
             ops.append(('inert', rng.choice(s['x'])))
             terms.append(('*', ('*', c, ('off', len(ops) - 1)), xi))
         else:
+            # a kind that does not apply here becomes a linear term: under the same no-duplicate rule
+            if ('m', xi) in used:
+                continue
+            used.add(('m', xi))
             terms.append(('*', c, xi))
     if not terms:
         terms.append(('*', E.C(G.coef(rng)), rng.choice(s['x'])))
